@@ -60,11 +60,11 @@ int lemma_bool_roundtrip(_Bool b)
 }
 
 /* ------------------------------------------------------------------ harnesses */
-void h_getIntegerHandle(void) { struct terminal *t; terminal__getIntegerHandle(t); CANARY(); }
+void h_getIntegerHandle(void) { struct terminal *t; w_v = nondet_long(); terminal__getIntegerHandle(t); CANARY(); }
 void h_getRealHandle(void) { struct terminal *t; terminal__getRealHandle(t); CANARY(); }
 void h_setFromHandle(void) { struct terminal *t; terminal_type ty; node_handle h = nondet_int();
     terminal__setFromHandle(t, ty, h); CANARY(); }
-void h_lemma_int_roundtrip(void) { long w_v = nondet_long(); lemma_int_roundtrip(w_v); CANARY(); }
+void h_lemma_int_roundtrip(void) { w_v = nondet_long(); lemma_int_roundtrip(w_v); CANARY(); }
 void h_lemma_int_bounds(void) { lemma_int_bounds(); CANARY(); }
 void h_lemma_int_injective(void) { long w_v1 = nondet_long(), w_v2 = nondet_long(); lemma_int_injective(w_v1, w_v2); CANARY(); }
 void h_lemma_real_roundtrip(void) { float w_f = nondet_float(); unsigned *ib, *ob; float *ov; lemma_real_roundtrip(w_f, ib, ob, ov); CANARY(); }
